@@ -41,6 +41,13 @@ def fuzz_decoders(ctx, n):
             else:
                 m = bytes([rnd.choice([0, 0xff, 2, 3, 4, 5])]) * len(v)
             ctx.call("dec", ty, m)
+    # the bare key decoders take a slice of ANY length: alternative encodings of valid points, wrong lengths
+    for label, m in alternative_point_encodings(L.ke, rnd):
+        r = ctx.call("ke_pk", m)
+        ctx.expect(not r.ok and r.status == "ERR", "public-key decoder refuses %s (%d bytes) with an error (%s)" % (label, len(m), r.status))
+    for m in (b"", bytes(L.Nsk - 1), bytes(L.Nsk + 1), ctx.tape(2 * L.Nsk), ctx.tape(L.Nsk)[:L.Nsk // 2], b"\xff" * (L.Nsk + 7)):
+        r = ctx.call("ke_sk", m)
+        ctx.expect(r.status in ("OK", "ERR"), "private-key decoder answers a %d-byte string without crashing (%s)" % (len(m), r.status))
 
 
 def cross_feed(ctx, other_suite):
